@@ -126,6 +126,47 @@ fn typecheck_single_file_for_query(
     Ok((hir_table, results, genv, parse_diagnostics))
 }
 
+/// Another `.gom` file next to `path`: the package the file belongs to has more than this file.
+fn has_sibling_sources(path: &Path) -> bool {
+    let dir = path
+        .parent()
+        .filter(|parent| !parent.as_os_str().is_empty())
+        .unwrap_or_else(|| Path::new("."));
+    let Ok(entries) = std::fs::read_dir(dir) else {
+        return false;
+    };
+    entries.flatten().any(|entry| {
+        let other = entry.path();
+        other.extension().is_some_and(|ext| ext == "gom") && other.file_name() != path.file_name()
+    })
+}
+
+/// The analysis the queries answer from. A file that imports nothing and stands alone is
+/// analysed on its own (no file system needed); otherwise its package is loaded the way
+/// compilation loads it, sibling files and imported packages included.
+fn analyze_for_query(
+    path: &Path,
+    src: &str,
+) -> Result<
+    (
+        hir::HirTable,
+        crate::typer::results::TypeckResults,
+        GlobalTypeEnv,
+        diagnostics::Diagnostics,
+    ),
+    String,
+> {
+    let with_packages = || {
+        pipeline::pipeline::typecheck_with_packages_and_results(path, src)
+            .map_err(|e| format!("{:?}", e))
+    };
+    if has_sibling_sources(path) {
+        with_packages().or_else(|_| typecheck_single_file_for_query(path, src))
+    } else {
+        typecheck_single_file_for_query(path, src).or_else(|_| with_packages())
+    }
+}
+
 pub fn hover_type(path: &Path, src: &str, line: u32, col: u32) -> Result<String, String> {
     let result = parser::parse(path, src);
     let root = MySyntaxNode::new_root(result.green_node);
@@ -153,11 +194,7 @@ pub fn hover_type(path: &Path, src: &str, line: u32, col: u32) -> Result<String,
     };
     let range = token.as_ref().map(|tok| tok.text_range());
 
-    let (hir_table, results, genv, _diagnostics) = typecheck_single_file_for_query(path, src)
-        .or_else(|_| {
-            pipeline::pipeline::typecheck_with_packages_and_results(path, src)
-                .map_err(|e| format!("{:?}", e))
-        })?;
+    let (hir_table, results, genv, _diagnostics) = analyze_for_query(path, src)?;
     let index = HirResultsIndex::new(&hir_table);
     let closure_params = ClosureParamIndex::new(&hir_table);
 
@@ -357,13 +394,7 @@ pub fn dot_completions(
     let lhs_expr = exprs.next()?;
     let lhs_ptr = MySyntaxNodePtr::new(lhs_expr.syntax());
 
-    let (hir_table, results, genv, _diagnostics) =
-        typecheck_single_file_for_query(path, &parse_src)
-            .or_else(|_| {
-                pipeline::pipeline::typecheck_with_packages_and_results(path, &parse_src)
-                    .map_err(|e| format!("{:?}", e))
-            })
-            .ok()?;
+    let (hir_table, results, genv, _diagnostics) = analyze_for_query(path, &parse_src).ok()?;
     let index = HirResultsIndex::new(&hir_table);
     let expr_id = index.expr_id(&lhs_ptr)?;
     let ty = results.expr_ty(expr_id)?.clone();
@@ -510,13 +541,7 @@ pub fn colon_colon_completions(
         return None;
     }
 
-    let (_hir_table, _results, genv, _diagnostics) =
-        typecheck_single_file_for_query(path, &parse_src)
-            .or_else(|_| {
-                pipeline::pipeline::typecheck_with_packages_and_results(path, &parse_src)
-                    .map_err(|e| format!("{:?}", e))
-            })
-            .ok()?;
+    let (_hir_table, _results, genv, _diagnostics) = analyze_for_query(path, &parse_src).ok()?;
 
     // A package can only be named by a file that imports it.
     let first_segment = segments[0].as_str();
